@@ -23,6 +23,36 @@ def from_lark(lark_instance, as_bytes=False):
     return out
 
 
+def from_dsl(grammar, lark_instance, gflags=0, as_bytes=False):
+    """Terminal definitions taken from the DSL grammar itself (name, pattern, priority as *written*), widths computed here with
+    sre_parse on the terminal's regexp including its flags - independent of the TerminalDef objects lark built. Inline %ignore
+    patterns and anonymous literals get default priority. The built parser is consulted only for the *names* it gave to anonymous
+    terminals (matched by pattern), because token types are compared by name."""
+    from .. import alpha
+    out = []
+    named = {}
+    for t in grammar.terms:
+        kind, val = t.pattern
+        rx = t.regexp()
+        named[t.name] = RefTerm(t.name, rx, t.priority if t.priority is not None else 0, _max_width(rx, gflags), len(val), kind == 'str' , gflags, as_bytes)
+        out.append(named[t.name])
+    # anonymous terminals (inline ignores, literals in rules): find lark's name by pattern
+    for lt in lark_instance.terminals:
+        if str(lt.name) in named:
+            continue
+        rx = lt.pattern.to_regexp()
+        out.append(RefTerm(str(lt.name), rx, 0, _max_width(rx, gflags), len(lt.pattern.value), lt.pattern.type == 'str', gflags, as_bytes))
+    return out
+
+
+def _max_width(regexp, gflags=0):
+    from ..alpha import sre_parse
+    try:
+        return int(sre_parse.parse(regexp, gflags).getwidth()[1])
+    except Exception:
+        return 0
+
+
 def order(terms):
     return sorted(terms, key=lambda t: (-t.priority, -t.max_width, -t.patlen, t.name))
 
